@@ -19,7 +19,23 @@ Definition fur_bytes (incr x y w h : Z) : list Z :=
      ++ be_bytes 2 (w mod 65536) ++ be_bytes 2 (h mod 65536).
 
 Definition send_fur (incr x y w h : Z) : M unit :=
-  s <- get_st ;; if c_canfur s then send (fur_bytes incr x y w h) else ret tt.
+  s <- get_st ;;
+  if negb (c_canfur s) then ret tt else
+  if c_reqrs s then ret tt else          (* "Skipping Update - resize in progress" *)
+  send (fur_bytes incr x y w h).
+
+(* SendExtDesktopSize (an application call between two messages): SetDesktopSize with one screen, then a full update
+   request; further requests are withheld until the server answers with an ExtendedDesktopSize rectangle.  Of the
+   rfbExtDesktopScreen the C code only sets width and height: id, x, y, flags are whatever the stack holds (-1) *)
+Definition send_ext_size (w h : Z) : M unit :=
+  s <- get_st ;;
+  if (fst (c_screen s) =? 0) && (snd (c_screen s) =? 0) then ret tt else
+  if (fst (c_screen s) =? w) && (snd (c_screen s) =? h) then ret tt else
+  send ([cC_SetDesktopSize; -1] ++ be_bytes 2 w ++ be_bytes 2 h ++ [1; -1]) ;;;      (* pad1, pad2: not set either *)
+  send ([-1; -1; -1; -1; -1; -1; -1; -1] ++ be_bytes 2 w ++ be_bytes 2 h ++ [-1; -1; -1; -1]) ;;;
+  upd_st (fun s => set_reqrs (set_screen s (w, h)) false) ;;;
+  send_fur 0 0 0 w h ;;;
+  upd_st (fun s => set_reqrs s true).
 
 Definition send_incr : M unit :=
   s <- get_st ;;
